@@ -83,6 +83,7 @@ type Act struct {
 	A      string   `json:"a,omitempty"`
 	Sec    int      `json:"sec,omitempty"`
 	Units  int      `json:"units,omitempty"`
+	Part   int      `json:"part,omitempty"` // PartialWrite: how much of the announced data is sent (0 none, 1 one byte, 2 half, 3 all but one byte)
 	N      int      `json:"n,omitempty"`
 	Cost   int64    `json:"cost,omitempty"`
 	NA     int64    `json:"na,omitempty"`  // renew / refresh: requested allowance (units)
@@ -190,6 +191,11 @@ type Adapter struct {
 	// they were replaced: the host still holds them and nothing may ever change them.
 	Olds      []frozen
 	AssumeRev *types.V2FileContract
+	// History: every revision of the current contract the host committed (fully signed); confirmed: the
+	// highest revision number the harness has had mined; Confirms: how many older revisions it confirmed
+	History   []types.V2FileContract
+	confirmed uint64
+	Confirms  int
 	switching bool
 	Switched  bool // a renewal has just replaced K (the replayer rebases its comparison)
 	// LastRenewal is the new contract handed to Contractor.RenewV2Contract by the last step, if any
@@ -535,6 +541,10 @@ func (a *Adapter) Step(act Act) (out Outcome, err error) {
 		a.Issues = append(a.Issues, a.AuditOthers()...)
 	}()
 	switch act.Op {
+	case "PartialWrite": // a valid write request, part of the data, then the stream is dropped
+		return a.partialWrite(act)
+	case "Confirm": // an earlier fully signed revision is broadcast and a block confirming it is mined
+		return out, a.confirmOlder()
 	case "Mine": // time passes: n blocks are mined, wallet and contractor catch up
 		return out, a.E.Mine(types.VoidAddress, act.N)
 	case "Next":
@@ -849,6 +859,60 @@ func (a *Adapter) beginWrite(act Act) error {
 	return nil
 }
 
+func (a *Adapter) partialWrite(act Act) (out Outcome, err error) {
+	out.Reply = abortReply()
+	s, err := a.dial("partialwrite")
+	if err != nil {
+		return out, err
+	}
+	sec := Sector(act.Sec)
+	n := uint64(act.Units) * 4096
+	k := map[int]uint64{0: 0, 1: 1, 2: n / 2, 3: n - 1}[act.Part]
+	req := proto4.RPCWriteSectorRequest{Prices: a.E.Prices, Token: a.token(act.A, "ok"), DataLength: n}
+	s.wdone = make(chan error, 1)
+	go func() {
+		err := proto4.WriteRequest(s.conn, proto4.RPCWriteSectorID, &req)
+		if err == nil && k > 0 {
+			_, err = s.conn.Write(sec.data[:k])
+		}
+		s.wdone <- err
+	}()
+	// the writes complete when the host has consumed them (unbuffered pipe); then hang up
+	select {
+	case <-s.wdone:
+		s.wdone = nil
+	case <-time.After(10 * time.Second):
+	}
+	s.close(a)
+	return out, nil
+}
+
+// confirmOlder broadcasts an EARLIER fully signed revision of the contract (either party may) and
+// mines a block that confirms it: the chain subscriber of the contractor sees a confirmed revision
+// that is older than the one the host has committed since.
+func (a *Adapter) confirmOlder() error {
+	cur := a.current()
+	var pick *types.V2FileContract
+	for i := range a.History {
+		h := a.History[i]
+		if h.RevisionNumber > a.confirmed && h.RevisionNumber < cur.RevisionNumber {
+			pick = &a.History[i]
+			break
+		}
+	}
+	if pick != nil {
+		basis, fce, err := a.E.EC.V2FileContractElement(a.K.ID)
+		if err == nil {
+			txn := types.V2Transaction{FileContractRevisions: []types.V2FileContractRevision{{Parent: fce.Copy(), Revision: *pick}}}
+			if _, err := a.E.CM.AddV2PoolTransactions(basis, []types.V2Transaction{txn}); err == nil {
+				a.confirmed = pick.RevisionNumber
+				a.Confirms++
+			}
+		}
+	}
+	return a.E.Mine(types.VoidAddress, 1)
+}
+
 func (a *Adapter) beginBalance(act Act) error {
 	req := proto4.RPCAccountBalanceRequest{Account: a.Acc(act.A)}
 	_, err := a.start(act, "balance", proto4.RPCAccountBalanceID, &req, nil)
@@ -992,7 +1056,19 @@ func (a *Adapter) round2(act Act) error {
 		}
 		msg = &proto4.RPCAppendSectorsSecondResponse{RenterSignature: a.sign(act.Sf, rev, s.existing)}
 	case "repl":
-		rev, _, err := proto4.ReviseForReplenish(s.existing, s.replResp.TotalCost())
+		total := s.replResp.TotalCost()
+		if act.Sf == "dedup" { // the total over the distinct listed accounts
+			total = types.ZeroCurrency
+			seen := map[proto4.Account]bool{}
+			for _, d := range s.replResp.Deposits {
+				if !seen[d.Account] {
+					total = total.Add(d.Amount)
+				}
+				seen[d.Account] = true
+			}
+			act.Sf = "ok"
+		}
+		rev, _, err := proto4.ReviseForReplenish(s.existing, total)
 		if err != nil {
 			rev = unpaid
 		}
@@ -1195,6 +1271,7 @@ func (a *Adapter) checkCommits(cs []Call) {
 		default:
 			continue
 		}
+		a.History = append(a.History, *c.Revision)
 		if msg := CheckCommit(a.E, c); msg != "" {
 			a.Issues = append(a.Issues, "commit:"+c.Op+": "+msg)
 		}
@@ -1226,6 +1303,18 @@ func CheckCommit(e *Env, c Call) string {
 			return "payout address changed"
 		case !p.RenterOutput.Value.Sub(rev.RenterOutput.Value).Equals(c.Usage.RenterCost()):
 			return "renter payout not lowered by the usage the host accounts"
+		}
+	}
+	if c.Prev != nil && (c.Op == "CreditAccounts" || c.Op == "CreditPools") {
+		var credited types.Currency
+		for _, d := range c.Deposits {
+			var ovf bool
+			if credited, ovf = credited.AddWithOverflow(d.Amount); ovf {
+				return "the credited amounts overflow 128 bits"
+			}
+		}
+		if c.Prev.RenterOutput.Value.Cmp(rev.RenterOutput.Value) < 0 || !c.Prev.RenterOutput.Value.Sub(rev.RenterOutput.Value).Equals(credited) {
+			return fmt.Sprintf("credits of %v are backed by a transfer of %v only", credited, c.Prev.RenterOutput.Value.Sub(rev.RenterOutput.Value))
 		}
 	}
 	if c.Roots != nil && c.Op == "Revise" {
